@@ -178,6 +178,21 @@ def _endswith(x, recv, args, e, p, site):
     yield p, Bool(items_eq(xs[len(xs) - len(suf):], suf) if len(suf) <= len(xs) else z3.BoolVal(False))
 
 
+def _pad(side):
+    def h(x, recv, args, e, p, site):
+        xs = items_of(recv, site)
+        w = z3.simplify(args[0].t) if args and args[0].sort == 'int' else None
+        if w is None or not z3.is_int_value(w): raise Unsupported(site + ' width not decided by the shape')
+        fill = items_of(args[1], site) if len(args) > 1 else (' ',)
+        if side == 'zfill': fill = ('0',)
+        if len(fill) != 1: raise Unsupported(site + ' fill character')
+        n = max(0, w.as_long() - len(xs))
+        if side == 'zfill' and xs and xs[0] in ('+', '-'): yield p, C(xs[:1] + fill * n + xs[1:])        # str.zfill keeps a leading sign in front
+        elif side == 'ljust': yield p, C(xs + fill * n)
+        else: yield p, C(fill * n + xs)
+    return h
+
+
 def _range(x, e, p, site):
     """range() with bounds decided by the shape: the literal sequence of its values (the loop over it is then unrolled)"""
     for p1, vs in x.ev_seq(list(e.args), p):
@@ -195,7 +210,8 @@ def _range(x, e, p, site):
 REGISTRY_EXT = {
     'compare': {('cstr', 'str'): _cmp, ('str', 'cstr'): _cmp, ('cstr', 'cstr'): _cmp, ('fl', 'int'): _fl_cmp, ('int', 'fl'): _fl_cmp},
     'binops': {('cstr', 'Add', 'str'): _add, ('str', 'Add', 'cstr'): _add, ('cstr', 'Add', 'cstr'): _add},
-    'methods': {('.find', 'cstr'): _find, ('.startswith', 'cstr'): _startswith, ('.endswith', 'cstr'): _endswith},
+    'methods': {('.find', 'cstr'): _find, ('.startswith', 'cstr'): _startswith, ('.endswith', 'cstr'): _endswith,
+                ('.ljust', 'cstr'): _pad('ljust'), ('.rjust', 'cstr'): _pad('rjust'), ('.zfill', 'cstr'): _pad('zfill')},
     'contains': {('cstr', 'str'): _contains, ('cstr', 'cstr'): _contains},
     'slices': {'cstr': _slice},
     'subscript': {('cstr', 'int'): _subscript},
@@ -269,13 +285,19 @@ def shapes(tier):
             for neg in (False, True): yield shape('finite', neg, k, n)
 
 
+def _result_items(r):
+    from vf.pyvc.contract import SortMismatch
+    if r.sort not in ('cstr', 'str'): raise SortMismatch(f'expected a string of known shape, got {r.sort}')
+    return items_of(r)
+
+
 def es6_contract(s, props=('C16',)):
     refused = s['kind'] in ('nan', 'inf', 'overflow')
     req = []
     if s['kind'] == 'finite':
         req = [('digits', lambda a, D=s['digits']: z3.And(*[z3.And(d.var >= d.lo, d.var <= d.hi) for d in D]))]
     ens = [] if refused else [('ECMAScript Number::toString of the double (RFC 8785 3.2.2.3)',
-                               lambda a, r, s=s: items_eq(items_of(r), es6_items(s)))]
+                               lambda a, r, s=s: items_eq(_result_items(r), es6_items(s)))]
     return Contract(f'{SRC}::convert2Es6Format', props=list(props), note=shape_name(s),
                     params={'value': lambda name, s=s: Val('num', x=s)},
                     requires=req, ensures=ens,
@@ -290,10 +312,12 @@ def es6_contract(s, props=('C16',)):
 def verify_shape(args):
     """worker: verify one shape; returns a compact record (z3 objects do not cross process boundaries)"""
     kind, neg, k, n, src_root = args
-    from vf.pyvc.contract import verify
+    from vf.pyvc.contract import verify, FunctionReport
     s = shape(kind, neg, k, n)
     c = es6_contract(s)
-    rep = verify(c, REG, src_root)
+    try: rep = verify(c, REG, src_root)
+    except Exception as ex:        # anything the engine does not foresee on a changed source: this shape is undecided, never a crash of the check
+        rep = FunctionReport(c); rep.status = 'undecided'; rep.reason = f'engine exception {type(ex).__name__}: {ex}'
     recs = []
     for ob in rep.obligations:
         r = ob.record()
